@@ -1742,6 +1742,17 @@ def value_cases(prog, t, atom, depth=0):
         return [(((name, "Some"),), "Some"), (((name, "None"),), "None")]
     if s[0] == "const" and s[1] in ("true", "false", True, False):
         return [((), str(s[1]).lower())]
+    if s[0] == "call" and name_matches(s[1], "FromResidual::from_residual") and s[2]:
+        # the failure value of a `?` (inside an inlined helper): Err of a Result-valued expression, None of an Option-valued one
+        r_ = strip_identity(s[2][0])
+        while r_[0] in ("field", "variant"):
+            r_ = strip_identity(r_[1])
+        if r_[0] == "call" and name_matches(r_[1], "Try::branch") and r_[2]:
+            src_ = strip_identity(r_[2][0])
+            if src_[0] == "call" and name_matches(src_[1], ("Option::ok_or_else", "Option::ok_or", "Result::map_err", "Result::map", "Result::and_then", "Result::or_else")):
+                return [((), "Err")]
+            if src_[0] == "call" and name_matches(src_[1], ("Option::map", "Option::and_then", "Option::filter", "Option::or_else", "Option::as_ref", "Result::ok", "Weak::upgrade")):
+                return [((), "None")]
     if s[0] == "agg":
         for v in ("Some", "None", "Ok", "Err"):
             if str(s[2]).endswith("::" + v):
